@@ -255,6 +255,7 @@ structure Item where
   fields : List Fld := []
   variants : List Name := []
   evstream : Bool := false
+  respEnum : Bool := false   -- a response enum (derives neither PartialEq nor serde): its payloads are decoded (client) / sent as Json (server)
   intoResp : Bool := false
   params : List Name := []
   bytesBody : Bool := false
@@ -308,12 +309,26 @@ def capable (m : Mod) (sel : Item → Bool) : Nat → Name → Bool
       if it.kind == "alias".toList then it.fields.all fun fd => fd.refs.all fun r => capable m sel f r.to
       else sel it
 
+/-- the types below `n` (looking through aliases) that lack a capability, each with "was a map / a nested array crossed
+on the way" — `type R = HashMap<String, E>` is an alias NODE whose target atom is opaque, so the break is at `E` -/
+def incapable (m : Mod) (sel : Item → Bool) : Nat → Name → Bool → Bool → List (Name × Bool × Bool)
+  | 0, _, _, _ => []
+  | f + 1, n, mp, ar =>
+    match m.find n with
+    | none => []
+    | some it =>
+      if it.kind == "alias".toList then
+        it.fields.flatMap fun fd => fd.refs.flatMap fun r => incapable m sel f r.to (mp || r.map) (ar || r.arr)
+      else if sel it then [] else [(n, mp, ar)]
+
 def serdeViols (m : Mod) : List Viol :=
   m.types.flatMap fun it =>
     if it.kind == "alias".toList then [] else
     it.fields.flatMap fun fd => fd.refs.flatMap fun r =>
-      (if it.ser && !capable m (·.ser) 4 r.to then [Viol.serde it.name r.to true r.map r.arr] else []) ++
-      (if it.de && !capable m (·.de) 4 r.to then [Viol.serde it.name r.to false r.map r.arr] else [])
+      -- a response enum needs its payload types decodable (client: parse_response) / encodable (server: axum::Json)
+      let server := m.mode == "server-mod".toList
+      (if it.ser || (it.respEnum && server) then (incapable m (·.ser) 4 r.to r.map r.arr).map fun (t, mp, ar) => Viol.serde it.name t true mp ar else []) ++
+      (if it.de || (it.respEnum && !server) then (incapable m (·.de) 4 r.to r.map r.arr).map fun (t, mp, ar) => Viol.serde it.name t false mp ar else [])
 
 def nameViols (m : Mod) : List Viol :=
   (m.mentions.flatMap fun (file, names) =>
@@ -402,7 +417,10 @@ def explains : Viol → RErr → Bool
   | .privateAcross f n, e => codeIn e.code ["E0425", "E0412", "E0433", "E0422", "E0603"] && e.file == f && e.name == n
   | .headerOptMismatch it, e => e.ikind == "impl".toList && e.iname == it && codeIn e.code ["E0308"]
   | .serde it tgt ser _ _, e =>
-      codeIn e.code ["E0277"] && e.iname == it && e.name == tgt && e.trait == (if ser then "Serialize".toList else "Deserialize".toList)
+      -- at the holder itself, or DOWNSTREAM at a use site (parse_response / handler / IntoResponse bodies) that needs the same bound
+      (codeIn e.code ["E0277"] && e.name == tgt && e.trait == (if ser then "Serialize".toList else "Deserialize".toList) &&
+        (e.iname == it || e.ikind == "impl".toList || e.ikind == "fn".toList)) ||
+      (ser && codeIn e.code ["E0599"] && e.ikind == "impl".toList && e.iname == it && e.name == "into_response".toList)
   | .lengthNeedsSer it tgt, e => codeIn e.code ["E0277"] && e.iname == it && e.name == tgt && e.trait == "Serialize".toList
   | .nestedNoValidate it tgt, e => codeIn e.code ["E0277", "E0599"] && e.iname == it && e.name == tgt
   | .dupParam it, e => e.ikind == "impl".toList && e.iname == it && codeIn e.code ["E0308", "E0428", "E0415", "E0201", "E0119", "E0592", "E0382", "E0124"]
@@ -433,7 +451,8 @@ accounted for by a violation of a characterised shape -/
 def judgeA (m : Mod) (errs : List RErr) : Verdict :=
   if errs.isEmpty then ⟨true, []⟩ else
   let vs := (violations m).filter fun v => (classOf m v).isSome
-  if errs.all (fun e => vs.any fun v => explains v e) then
+  -- every WF violation must have a class AND every rustc error must be accounted for by one of them
+  if (violations m).all (fun v => (classOf m v).isSome) && errs.all (fun e => vs.any fun v => explains v e) then
     ⟨false, ((vs.filter fun v => errs.any (explains v)).filterMap (classOf m)).eraseDups⟩
   else ⟨false, []⟩
 
